@@ -331,6 +331,9 @@ def layerLoop (dest : Str) (o : Opts) : List Entry → LState → Prog (Out × N
     layerFinish dest st r
   | e :: es, st0 => do
     let st := { st0 with size := st0.size + e.size }
+    -- PAX global headers are ignored before any effect, as in `Unpack` (fix D26)
+    if e.typ == .xglobal then layerLoop dest o es st
+    else
     let n := clean e.name
     -- reserved-prefix entries: staging area
     let stR ← stageP dest o e st n
